@@ -124,6 +124,8 @@ func main() {
 	genAddr(*repo, *out)
 	genAlias(*repo, *out)
 	genDriver(*repo, *out)
+	genOps(*repo, *out)
+	genOrder(*repo, *out)
 	genSource(*repo, *out)
 }
 
